@@ -1,5 +1,7 @@
 import ThruVerif.Model.Disk
 import ThruVerif.Gen.Order
+import ThruVerif.Gen.Shapes
+import ThruVerif.Proofs.Flushers
 /-!
 # C05 — Resume metadata never claims a chunk that is not safely in the file
 -/
@@ -95,3 +97,63 @@ theorem C05_order :
 example : ∃ s, Reachable s ∧ s.disk = none := ⟨init, .init, rfl⟩
 
 end TV.Disk
+
+namespace TV.Flushers
+
+/-! ### several flushers of one sidecar (ticker, `finalizeFile`, the signal handler) - `Model/Flushers` -/
+
+/-- **C05_replace_atomic.** With the sidecar mutex held around the I/O, for any number of flushers, any interleaving of their steps
+and kills at any point: what is installed at the sidecar path is nothing or a complete version that some flusher marshalled -
+never a truncated or partly written file, so an interrupted update leaves the previous valid version -/
+theorem C05_replace_atomic (n : Nat) (as : List Step) (s : St) (h : run true (init n) as = some s) : diskOk s :=
+  (inv_run (inv_init n) h).disk
+
+/-- the file at the sidecar path changes only by a rename, to the complete temp file of the flusher that renames -/
+theorem C05_replace_only_by_rename (n : Nat) (as : List Step) (s s' : St) (a : Step) (h : run true (init n) as = some s)
+    (hs : step true s a = some s') : s'.disk = s.disk ∨ ∃ j b, a = .rename j ∧ s.pcs[j]? = some (Pc.wroteTmp b) ∧ s'.disk = some (File.full b) := by
+  have hI := inv_run (inv_init n) h
+  cases a with
+  | begin_ j b => simp only [step] at hs; split at hs <;> simp at hs; subst hs; exact Or.inl rfl
+  | trunc j => simp only [step] at hs; split at hs <;> simp at hs; subst hs; exact Or.inl rfl
+  | finish j => simp only [step] at hs; split at hs <;> simp at hs; subst hs; exact Or.inl rfl
+  | rename j =>
+    simp only [step] at hs
+    split at hs
+    · rename_i b hp
+      have ⟨htmp, _⟩ := hI.wrote j b hp
+      rw [htmp] at hs
+      simp only at hs
+      injection hs with hs; subst hs
+      exact Or.inr ⟨j, b, rfl, hp, rfl⟩
+    all_goals cases hs
+  | end_ j => simp only [step] at hs; split at hs <;> simp at hs; subst hs; exact Or.inl rfl
+  | kill => simp only [step] at hs; injection hs with hs; subst hs; exact Or.inl rfl
+
+/-- premises satisfiable: two flushers one after the other, a kill between the second one's temp write and its rename -/
+example : ∃ s, run true (init 2) [.begin_ 0 5, .trunc 0, .finish 0, .rename 0, .end_ 0, .begin_ 1 7, .trunc 1, .finish 1, .kill] = some s ∧
+    s.disk = some (File.full 5) ∧ s.tmp = some (File.full 7) := ⟨_, rfl, rfl, rfl⟩
+
+/-- with the mutex a second flusher cannot start while the first is between its temp write and its rename -/
+example : run true (init 2) [.begin_ 0 5, .trunc 0, .finish 0, .begin_ 1 7] = none := by decide
+
+/-- without the mutex around the I/O (a seeded change moved it out): flusher 0 has written the temp file, flusher 1 truncates it,
+flusher 0 renames - a truncated file is installed and the previous valid version (5) is gone -/
+theorem C05_replace_not_atomic_without_mutex :
+    ∃ s, run false (init 2) [.begin_ 0 5, .trunc 0, .finish 0, .rename 0, .end_ 0, .begin_ 0 6, .trunc 0, .finish 0, .begin_ 1 7, .trunc 1, .rename 0] = some s ∧
+      s.disk = some (File.torn 1) ∧ ¬ diskOk s := by
+  refine ⟨_, rfl, rfl, ?_⟩
+  intro h
+  rcases h with h | ⟨b, h, _⟩
+  · cases h
+  · cases h
+
+open TV.Gen.Shapes in
+set_option maxRecDepth 16384 in
+/-- `Sidecar.Flush` takes the sidecar mutex first and releases it when it returns: marshal, temp write, rename and the `dirty`
+reset all happen under it (the `mutex = true` instance is the code); the temp name is the fixed `<path>.tmp` -/
+theorem C05_source_flush_locked :
+    sidecar_flush_head = ["s.mu.Lock()", "defer s.mu.Unlock()"] ∧
+    sidecar_flush_io = ["temp := s.Path + \".tmp\"", "verifhook.Point(\"sidecar.between_tmp_and_rename\")", "verifhook.Point(\"sidecar.after_rename\")", "s.dirty = false"] ∧
+    sidecar_flush_write_args = ["temp, buf.Bytes(), 0644"] ∧ sidecar_flush_rename_args = ["temp, s.Path"] := by decide
+
+end TV.Flushers
